@@ -292,7 +292,9 @@ thread_local! {
 
 /// Projection of the match finder's state (verif_lz_state hook) against the input of the stream:
 /// the record DeflateLZRules!StateRules is evaluated on.  `taken` = input bytes consumed so far.
-pub fn lz_proj(c: &CompressorOxide, input: &[u8], taken: usize, flush: &str, quiet: bool) -> Value {
+pub fn lz_proj(c: &mut CompressorOxide, input: &[u8], taken: usize, flush: &str, quiet: bool) -> Value {
+    // high-water mark of look-ahead + history inside the match finders during the call just made
+    let fillmax = c.verif_lz_fill_max();
     const DICT: usize = 32768;
     const MAXM: usize = 258;
     let (lapos, lasize, dsize, saved_len, d) = c.verif_lz_state();
@@ -321,7 +323,7 @@ pub fn lz_proj(c: &CompressorOxide, input: &[u8], taken: usize, flush: &str, qui
     let fast = f & 0xFFF == 1 && f & 0x4000 != 0 && f & (0x20000 | 0x80000 | 0x10000) == 0;
     json!({"lapos": lapos, "lasize": lasize, "dsize": dsize, "taken": taken, "hist_bad": hist_bad,
            "look_bad": look_bad, "mirror_bad": mirror_bad, "saved_len": saved_len,
-           "idle": quiet, "flush": flush, "lamax": if fast { 4096 } else { MAXM }})
+           "idle": quiet, "flush": flush, "lamax": if fast { 4096 } else { MAXM }, "fillmax": fillmax})
 }
 
 /// Drive the low-level compressor along a schedule; log every call; then log the whole
@@ -454,7 +456,7 @@ pub fn stream_comp_case(
             let spare0 = sch.callback || w < olen;
             let quiet = prev_left_space && pos + used == offered_end && spare0
                 && (st == TDEFLStatus::Okay || st == TDEFLStatus::Done);
-            e["lz"] = lz_proj(&c, input, pos + used, FLUSHES[flush_i].0, quiet);
+            e["lz"] = lz_proj(&mut c, input, pos + used, FLUSHES[flush_i].0, quiet);
         }
         tr.ev(e);
         if used > chunk.len() || (!sch.callback && w > olen) {
@@ -576,7 +578,7 @@ pub fn deflate_case(
                     "tail_untouched": untouched,
                     "adler": pair_json(adler_pair_of_u32(c.adler32()))});
                 if res.bytes_consumed <= chunk.len() {
-                    e["lz"] = lz_proj(&c, input, *pos + res.bytes_consumed, mzflush_name(flush), false);
+                    e["lz"] = lz_proj(&mut c, input, *pos + res.bytes_consumed, mzflush_name(flush), false);
                 }
                 tr.ev(e);
                 if res.bytes_consumed <= chunk.len() && res.bytes_written <= out_len {
